@@ -107,6 +107,18 @@ func signedOutcome(fn string, ser []byte, serOK bool, libVerifyOK bool, reader s
 	return r
 }
 
+// leaseOffset: end dates of the i-th of n leases, in seconds after the base instant: ascending (0), descending (1) or
+// unordered with a repeated date (2) — the wire format prescribes no order and the signature covers the order given
+func leaseOffset(order, i, n int) int64 {
+	switch order {
+	case 1:
+		return int64(n - i)
+	case 2:
+		return int64((i*7 + 3) % 5)
+	}
+	return int64(i)
+}
+
 // afterQueries: every read-only argument-free method of the structure and of the parts it was built from (validity queries
 // included) is called; then the structure has to verify and serialise exactly as before
 func afterQueries(res Res, parts []any, ser0 []byte, again func() ([]byte, bool, bool)) {
@@ -213,7 +225,7 @@ func init() {
 			for i := 0; i < m.Int("nleases"); i++ {
 				var gw data.Hash
 				rng.Read(gw[:])
-				l, err := lease.NewLease(gw, uint32(i+1), time.Unix(4102444800+int64(i), 0))
+				l, err := lease.NewLease(gw, uint32(i+1), time.Unix(4102444800+leaseOffset(m.Int("lorder"), i, m.Int("nleases")), 0))
 				if err != nil {
 					return Res{"setup": false, "err": "lease: " + errStr(err)}
 				}
@@ -238,6 +250,10 @@ func init() {
 				for k, v := range signedOutcome("NewLeaseSet", ser, serr == nil, ls.Verify() == nil, "ReadLeaseSet", 0, st, id.pub, a.Int("siglen"), a.Bytes("prefix"), id.pub) {
 					res[k] = v
 				}
+				afterQueries(res, []any{ls, d}, ser, func() ([]byte, bool, bool) {
+					b, e := ls.Bytes()
+					return b, e == nil, ls.Verify() == nil
+				})
 			}
 		case "CreateOfflineSignature":
 			tk, err := genKey(m.Int("tst"), rng)
@@ -367,7 +383,7 @@ func init() {
 				for i := 0; i < m.Int("nleases"); i++ {
 					var gw data.Hash
 					rng.Read(gw[:])
-					l, err := lease.NewLease2(gw, uint32(i+1), time.Unix(4102444800+int64(i), 0))
+					l, err := lease.NewLease2(gw, uint32(i+1), time.Unix(4102444800+leaseOffset(m.Int("lorder"), i, m.Int("nleases")), 0))
 					if err != nil {
 						return Res{"setup": false, "err": "lease2: " + errStr(err)}
 					}
